@@ -610,15 +610,8 @@ fn list_view<O: ArrowNativeType + Into<i64>>(
 /// `spec_validate` ∧ arrow-rs' own `validate_full`.
 pub fn check_data(d: &ArrayData) -> VResult {
     spec_validate(d)?;
-    match d.validate_full() {
-        Ok(()) => Ok(()),
-        // `ArrayData::validate` sizes the validity buffer with the *data* offset
-        // although a `NullBuffer` carries its own bit offset; a BooleanArray /
-        // sliced child whose values and validity have different bit offsets is
-        // well-formed (spec_validate checked the bitmap with its own offset).
-        Err(e) if e.to_string().contains("null_bit_buffer size too small") => Ok(()),
-        Err(e) => Err(format!("validate_full rejected: {e}")),
-    }
+    d.validate_full()
+        .map_err(|e| format!("validate_full rejected: {e}"))
 }
 
 pub fn check_array(a: &dyn Array) -> VResult {
